@@ -146,17 +146,18 @@ def record_history(ptn, seed, quick):
         R = gauss_like(rng, (sa[2], w[1], sb[2]), real=rk)
         Lb = gauss_like(rng, (sa[1], w[0], sb[1]), real=rk)
         opn = ptn.operation
-        tr.append(dict(ev='step_right', A=snap_array_gauss(A, 'A'), B=snap_array_gauss(B, 'B'), W=snap_array_gauss(W, 'W'), X=snap_array_gauss(R, 'R'),
-                       out=snap_array_gauss(opn.contraction_operator_step_right(A, B, W, R), 'out')))
-        tr.append(dict(ev='step_left', A=snap_array_gauss(A, 'A'), B=snap_array_gauss(B, 'B'), W=snap_array_gauss(W, 'W'), X=snap_array_gauss(Lb, 'L'),
-                       out=snap_array_gauss(opn.contraction_operator_step_left(A, B, W, Lb), 'out')))
         R2, L2 = gauss_like(rng, (sa[2], sb[2]), real=rk), gauss_like(rng, (sa[1], sb[1]))
         direct = [A, B, W, R, Lb, R2, L2]
         dig1 = digest_arrays(direct)
-        tr.append(dict(ev='cstep_right', A=snap_array_gauss(A, 'A'), B=snap_array_gauss(B, 'B'), X=snap_array_gauss(R2, 'R'),
-                       out=snap_array_gauss(opn.contraction_step_right(A, B, R2), 'out')))
-        tr.append(dict(ev='cstep_left', A=snap_array_gauss(A, 'A'), B=snap_array_gauss(B, 'B'), X=snap_array_gauss(L2, 'L'),
-                       out=snap_array_gauss(opn.contraction_step_left(A, B, L2), 'out')))
+        # the inputs as they were handed in the first time; every step is asked for twice with the same block objects (a block
+        # is used again by the caller: list of blocks kept during a sweep, second bra / ket), both answers must be the index sum
+        sA, sB, sW = snap_array_gauss(A, 'A'), snap_array_gauss(B, 'B'), snap_array_gauss(W, 'W')
+        sR, sL, sR2, sL2 = snap_array_gauss(R, 'R'), snap_array_gauss(Lb, 'L'), snap_array_gauss(R2, 'R'), snap_array_gauss(L2, 'L')
+        for _rep in range(2):
+            tr.append(dict(ev='step_right', A=sA, B=sB, W=sW, X=sR, out=snap_array_gauss(opn.contraction_operator_step_right(A, B, W, R), 'out')))
+            tr.append(dict(ev='step_left', A=sA, B=sB, W=sW, X=sL, out=snap_array_gauss(opn.contraction_operator_step_left(A, B, W, Lb), 'out')))
+            tr.append(dict(ev='cstep_right', A=sA, B=sB, X=sR2, out=snap_array_gauss(opn.contraction_step_right(A, B, R2), 'out')))
+            tr.append(dict(ev='cstep_left', A=sA, B=sB, X=sL2, out=snap_array_gauss(opn.contraction_step_left(A, B, L2), 'out')))
         if digest_arrays(direct) != dig1:
             tr.append(dict(ev='flag', ok=False, foreign=True, what='a transfer contraction step modified one of its arguments'))
     except OffLattice as ex:
